@@ -740,8 +740,8 @@ def main(argv):
                 'out': k['out'], 'file': k['file'], 'func': k['func'],
                 'select': k['select'], 'source': src,
                 'sha': hashlib.sha256(text.encode()).hexdigest()[:16]}
-        except (TranslateError, OSError, SyntaxError, KeyError, IndexError, ValueError) as ex:
-            report['errors'].append({'kernel': k.get('name'), 'out': k.get('out'), 'error': str(ex)})
+        except Exception as ex:   # fail closed: whatever goes wrong, the kernel is reported as not translated
+            report['errors'].append({'kernel': k.get('name'), 'out': k.get('out'), 'error': f'{type(ex).__name__}: {ex}'})
     os.makedirs(outdir, exist_ok=True)
     for out, m in mods.items():
         hdr = ['(* GENERATED by translator/py2coq.py from the current /repo working tree. Do not edit. *)',
